@@ -51,11 +51,25 @@ def run(ctx):
             ctx.check("C08.R1", f"match_types({w}, {r}) = {want}", got == want, mt.where(), f"match_types: writer {w} reader {r} -> {got}", f"match_types answers {got} for writer {w!r} / reader {r!r}; the specification says {want}")
     mp = p.func("_read_py:maybe_promote")
     dp, wp2, rp2 = mp.pos_params[:3]
+
+    def module_tables(f):
+        """module-level literal tables the function reads (rows may carry functions, kept as syntax)"""
+        env = {}
+        for nm in names_in(f.node):
+            r_ = p.resolve(f.mod, nm)
+            if r_ is not None and r_[0] == "value" and isinstance(r_[2], (ast.Tuple, ast.List, ast.Dict)):
+                v = guards.value_of(r_[2], {})
+                if not isinstance(v, guards._NoVal):
+                    env[nm] = v
+        return env
+
+    mp_env = module_tables(mp)
+    mt_env = module_tables(mt)
     for w in spec.PRIMITIVES:
         for r in spec.PRIMITIVES:
             if not spec.matches(w, r):
                 continue
-            out = guards.run_chain(mp.node.body, {wp2: w, rp2: r})
+            out = guards.run_chain(mp.node.body, dict(mp_env, **{wp2: w, rp2: r}))
             if out[0] != "return":
                 ctx.unrecognised("C08.R1", f"maybe_promote({w}, {r})", mp.where(), f"outcome {out[0]}")
                 continue
